@@ -170,6 +170,11 @@ def validate_traces(chk, traces, name='c14'):
     traces = [t for t in traces if t and t[0]['ev'] == 'SetF']
     if not traces:
         raise C.Machinery('no traces recorded (hooks not active?)')
+    # self-test of the binding: a recorded trace with its first matrix fill removed must be rejected
+    probe = next((t for t in traces if any(e['ev'] == 'FillZ' for e in t) and any(e['ev'] == 'Solve' for e in t)), None)
+    if probe is not None:
+        k0 = next(i for i, e in enumerate(probe) if e['ev'] == 'FillZ')
+        traces = traces + [probe[:k0] + probe[k0 + 1:]]
     enc, nf, nw = encode_traces(traces)
     wd = C.workdir('trace-' + name)
     tf = os.path.join(wd, 'traces.json')
@@ -193,6 +198,11 @@ def validate_traces(chk, traces, name='c14'):
     if len(verdicts) != len(traces):
         raise C.Machinery('trace validation produced %d verdicts for %d traces: %s'
                           % (len(verdicts), len(traces), res.out[-1500:]))
+    if probe is not None:
+        t, matched, expected, code = verdicts[-1]
+        if matched == expected and not code:
+            raise C.Machinery('TraceLifecycle accepted a trace without its matrix fill: the trace validation is vacuous')
+        traces, verdicts = traces[:-1], verdicts[:-1]
     return traces, verdicts
 
 
